@@ -183,7 +183,7 @@ def run_cache_history(ops, P, cold):
                 codes.append(ERRCODE.get(err, -99)); continue
             flag = 1 if C.n > 0 else 0
             codes.append(hashz([flag] + wobs()))
-            key = (pids[o], i, float(th).hex(), float(a).hex())
+            key = (pids[o], i, type(th).__name__, float(th).hex(), type(a).__name__, float(a).hex())   # a request = its values AND their numeric types
             if key not in cold:
                 n0 = C.n
                 ci = Integrator(P[pids[o]]); ci._cache = {}        # a private empty dict whatever the class does: truly cold
@@ -288,6 +288,9 @@ def exec_events(events, P, sets=None):
             sets.append(mk_gateset(e[1], P))
         elif e[0] == "call":
             outs.append(np.asarray(getattr(sets[e[1]], e[2])(*e[3])))
+        elif e[0] == "call32":      # the same request with its angle given in single precision (np.float32 compares and hashes equal to the float)
+            a = list(e[3]); a[0] = np.float32(a[0])
+            outs.append(np.asarray(getattr(sets[e[1]], e[2])(*a)))
         elif e[0] == "seed":
             np.random.seed(e[1])
         elif e[0] == "draw":
@@ -309,8 +312,10 @@ def gen_gate_case(rng, quick):
             m2, a2 = perturb(rng, m, args, "duration"); ev.append(["call", 0, m2, a2])
         elif r < 0.50:
             m2, a2 = perturb(rng, m, args, "angle"); ev.append(["call", 0, m2, a2])
-        elif r < 0.56:
+        elif r < 0.52:
             ev.append(["call", 0, m, args])                         # warm the cache with the very same request
+        elif r < 0.56 and m in ("single_qubit_gate", "CR") and float(np.float32(args[0])) == float(args[0]):
+            ev.append(["call32", 0, m, args])                       # ... and with the angle as np.float32 (exactly representable angles only)
         elif r < 0.68:
             m2, a2 = perturb(rng, m, args, "noise"); ev.append(["call", 0, m2, a2])   # same pulse, another qubit's noise values
         elif r < 0.80:
@@ -326,7 +331,7 @@ def gen_gate_case(rng, quick):
     for e in ev:
         if e[0] == "new":
             nsets += 1
-        if e[0] == "call" and e[1] == "last":
+        if e[0] in ("call", "call32") and e[1] == "last":
             e = ["call", nsets - 1, e[2], e[3]]
         out.append(e)
     # a perturbed call may name a method the other gate set lacks (CR on NoiseFree exists; all fine)
@@ -346,7 +351,7 @@ def run_gate_case(doc, P):
     st_cold = state_key(np.random.get_state())
     np.random.seed((seed * 7 + 3) % 2 ** 32)
     sets = [mk_gateset(["Gates", pid], P)]
-    hist = [[e[0], e[1], e[2], tuple(e[3])] if e[0] == "call" else e for e in doc["history"]]
+    hist = [[e[0], e[1], e[2], tuple(e[3])] if e[0] in ("call", "call32") else e for e in doc["history"]]
     try:
         exec_events(hist, P, sets)
     except Exception as e:  # noqa
@@ -513,6 +518,9 @@ def main(argv):
         [("new", 1), ("new", 1), ("int", 0, 4, 1.0, 1.0), ("int", 1, 4, 1.0, 1.0), ("int", 1, 4, 1.0, 1.0)],
         [("new", 0), ("new", 1), ("int", 0, 2, 0.5, 3e-7), ("int", 1, 2, 0.5, 3e-7), ("int", 0, 2, 0.5, 2.5e-7), ("int", 0, 2, 0.0, 1.0), ("int", 0, 2, 0.0, 1.0)],
         [("new", 1), ("int", 0, 8, 0.5, 1.0), ("int", 0, 0, 0.5, 0.0), ("int", 0, 0, 0.5, -1.0), ("int", 0, 0, 0.5, 1.0), ("int", 0, 8, 0.5, 1.0)],
+        # the same angle first in single / half precision, then as a float (they compare and hash equal): the float request must get the float answer
+        [("new", 1), ("int", 0, 1, np.float32(0.5), 1), ("int", 0, 1, 0.5, 1), ("int", 0, 1, np.float16(0.5), 1.0), ("int", 0, 1, 0.5, 1.0)],
+        [("new", 2), ("int", 0, 3, np.float16(1.0), np.float32(2.0)), ("int", 0, 3, 1.0, 2.0)],
     ]
     nrand, nwild = (120, 30) if quick else (800, 200)
     hists = [("fixed_adversarial", h) for h in fixed] + [("random_histories", gen_cache_history(rng, False)) for _ in range(nrand)] + \
